@@ -5,6 +5,7 @@
 import Goloop.Proofs.C28
 import Goloop.Proofs.C28Batch
 import Goloop.Proofs.C28Tree
+import Goloop.Proofs.C28SetLen
 namespace Goloop.C28
 
 /-- **C28 (altered proofs or hashes are rejected, or a collision is exhibited).**
@@ -283,6 +284,19 @@ theorem addAll_written (H : Bytes → Bytes) (hlen : ∀ x, (H x).length = 32)
     simp only [addAll, List.foldl_cons] at this ⊢
     simpa [List.append_assoc] using this
 
+/-- after `Add`ing `xs` to the empty accumulator over a content-addressed bucket: the state is the
+    closed-form state of `xs`, the bucket is still content addressed and holds every complete
+    group of every level -/
+theorem addAll_facts (H : Bytes → Bytes) (hlen : ∀ x, (H x).length = 32)
+    (xs : List Bytes) (hx : All32 xs) (db0 : DB) (hdb0 : AllOk H db0) :
+    (addAll H ({}, db0) xs).1 = { len := xs.length, roots := rootsOf H xs } ∧
+    AllOk H (addAll H ({}, db0) xs).2 ∧ FW H (Vals (addAll H ({}, db0) xs).2) xs := by
+  have hstate := addAll_state H hlen xs hx [] ({}, db0) All32.nil (by simp [rootsOf_nil])
+  obtain ⟨hok1, hfw1⟩ := addAll_written H hlen xs hx [] ({}, db0) All32.nil (by simp [rootsOf_nil])
+    hdb0 (FW.nil H _)
+  simp only [List.nil_append] at hstate hfw1
+  exact ⟨hstate, hok1, hfw1⟩
+
 /-- **C28 (every added hash has a proof that the tree accepts).** `Add` any sequence `xs` of
     32-byte hashes to the empty accumulator over a content-addressed bucket `db0` (e.g. the
     empty one). Then `Finalize` succeeds with header `⟨batch xs, |xs|⟩`, and if the resulting
@@ -299,57 +313,14 @@ theorem proof_accepted (H : Bytes → Bytes) (hlen : ∀ x, (H x).length = 32)
         ∃ pt, newTree db' ⟨batch H xs, xs.length⟩ = some pt ∧
           ∀ vdb, ∃ vt p, newTree vdb ⟨batch H xs, xs.length⟩ = some vt ∧
             pt.prove key 0 = .ok p ∧ (vt.add H key (xs.getD key []) p).2 = .ok) := by
-  have hstate := addAll_state H hlen xs hx [] ({}, db0) All32.nil (by simp [rootsOf_nil])
-  have hfw0 : FW H (Vals db0) [] := by
-    intro i j hj; exfalso
-    have : ∀ i, (U H ([] : List Bytes) i) = [] := by
-      intro i; induction i with
-      | zero => rfl
-      | succ i ih => simp only [U]; have : up H ([] : List Bytes) = [] := by simp [up]
-                     rw [this]; exact ih
-    rw [this] at hj; simp at hj
-  obtain ⟨hok1, hfw1⟩ := addAll_written H hlen xs hx [] ({}, db0) All32.nil (by simp [rootsOf_nil]) hdb0 hfw0
-  simp only [List.nil_append] at hstate hfw1
-  obtain ⟨db', hfold, hok', _, haw⟩ :=
-    fold_written H hlen _ xs rfl hx none (addAll H ({}, db0) xs).2 (by simp) hok1 hfw1
-  simp only [Option.toList_none, List.append_nil] at hfold haw
-  refine ⟨db', by simp only [Acc.finalize, hstate, hfold]; rfl, ?_⟩
+  obtain ⟨hstate, hok1, hfw1⟩ := addAll_facts H hlen xs hx db0 hdb0
+  obtain ⟨db', hfin, hok', hrest⟩ := finalize_prove H hlen xs hx _ hok1 hfw1
+  refine ⟨db', by rw [hstate]; exact hfin, ?_⟩
   intro hnc
-  have hpos : 0 < xs.length := by omega
-  have hst := storedT_of_written H hlen db' xs hx hok' hnc haw
-  obtain ⟨hL1, hL2⟩ := level_facts H xs hpos
-  -- the root
-  obtain ⟨r, hr⟩ : ∃ r, T H xs (levelFromLen xs.length) = [r] := by
-    cases hT : T H xs (levelFromLen xs.length) with
-    | nil => rw [hT] at hL1; simp at hL1
-    | cons a as =>
-      rw [hT] at hL1; simp at hL1
-      exact ⟨a, by rw [hL1]⟩
-  have hr32 : r.length = 32 := T_all32 H hlen xs hx _ r (by rw [hr]; simp)
-  have hbatch : batch H xs = some r := by rw [batch_eq_top H xs hpos, hr]; rfl
-  have hvalid : validNode r = true := by simp [validNode, hr32, hashLen, maxNodeBytes, maxChildren]
-  have hnew : ∀ d, newTree d ⟨batch H xs, xs.length⟩ =
-      some { db := d, level := levelFromLen xs.length, root := r, cap := xs.length } := by
-    intro d; simp [newTree, hbatch, hvalid]
+  obtain ⟨r, hr, _, hnew, hprove'⟩ := hrest hnc (by omega)
+  have hprove := hprove' key hkey
   refine ⟨_, hnew db', ?_⟩
   intro vdb
-  -- what Prove reads
-  have hk0 : key / 16 ^ (levelFromLen xs.length + 1) = 0 := by
-    apply Nat.div_eq_of_lt
-    have := (levelFromLen_spec xs.length hpos).1
-    have : 16 ^ levelFromLen xs.length ≤ 16 ^ (levelFromLen xs.length + 1) :=
-      Nat.pow_le_pow_right (by omega) (by omega)
-    omega
-  have hroot : node (T H xs (levelFromLen xs.length)) (key / 16 ^ (levelFromLen xs.length + 1)) = r := by
-    rw [hk0, hr]; simp [node, chunk]
-  have hloop := proveLoop_spec H hlen db' xs hx hst key hkey (levelFromLen xs.length) hL2
-  rw [hroot] at hloop
-  have hprove : (⟨db', levelFromLen xs.length, r, xs.length⟩ : Tree).prove key 0 =
-      .ok (pathNodes H xs key (levelFromLen xs.length)) := by
-    unfold Tree.prove
-    simp only [hloop]
-    have hnn : ¬ ((levelFromLen xs.length : Int) < 0) := by omega
-    simp [hnn]
   refine ⟨_, _, hnew vdb, hprove, ?_⟩
   have hacc := accept_of_prove H vdb key ⟨batch H xs, xs.length⟩ db' _ _ _ hok'.dbok (hnew db') (hnew vdb) hprove
   -- the hash found at the end of the proof is xs[key]
@@ -398,27 +369,71 @@ theorem setLen_edge_cases (H : Bytes → Bytes) (a : Acc) (db : DB) :
   · simp [Acc.setLen]
   · intro h; simp [Acc.setLen, h]
 
-/-- **C28 (rewind = prefix) — partial: the core of `SetLen`.** Let `t` be any sequence of
+/-- **C28 (rewind = prefix), the core lemma of `SetLen`.** Let `t` be any sequence of
     32-byte hashes and `m ≤ |t|`. Take one node per level `i` of the finalised tree of `t`, bottom
     level first, for as many levels as `m` has base-16 digits — at level `i` the node in which
     the prefix still has something pending (group `⌊m/16^i⌋/16`, which is the group on the path
     to key `m-1`; any node when digit `i` of `m` is 0) — and cut node `i` to digit `i` of `m`
     (`truncRoots`, the loop at the end of `SetLen`). The result is exactly `rootsOf (t.take m)`,
-    the roots `Add` builds for the first `m` hashes (`addAll_state`), so by
-    `header_is_function_of_sequence` the header afterwards is `⟨batch (t.take m), m⟩`.
-    Missing for the full statement `setLen_eq_prefix` (after any adds `xs` and `0 < l < Len`,
-    `SetLen l` returns `.ok` with state `{l, rootsOf (xs.take l)}`): the glue inside `SetLen`
-    — that `LevelFromLen l (+1 if powerOf16 l)` is the number of base-16 digits of `l`, and that
-    the last `lvl` elements of `Prove(l-1, 0)` (`pathNodes`, proved to be what `Prove` returns
-    in `proof_accepted`) are these nodes. That part is covered by the oracle (header after every
-    rewind = batch root of the prefix, all rewind points up to 300) and the model/code runs. -/
-theorem setLen_eq_prefix_partial (H : Bytes → Bytes) (hlen : ∀ x, (H x).length = 32)
+    the roots `Add` builds for the first `m` hashes (`addAll_state`). `setLen_eq_prefix` below
+    connects this to `SetLen` itself. -/
+theorem setLen_core_truncated_path_is_prefix_roots (H : Bytes → Bytes) (hlen : ∀ x, (H x).length = 32)
     (t : List Bytes) (ht : All32 t) (m : Nat) (hm : m ≤ t.length)
     (ns : List Bytes) (js : List Nat) (hd : ns.length = hexDigits m) (hjs : js.length = ns.length)
     (hns : ∀ i (hi : i < ns.length), ns[i] = node (T H t i) (js.getD i 0) ∧
       ((m / 16 ^ i) % 16 ≠ 0 → js.getD i 0 = m / 16 ^ i / 16)) :
     truncRoots ns m = some (rootsOf H (t.take m)) :=
   truncRoots_path H hlen ns t m js ht hm hd hjs hns
+
+/-- **C28 (rewind = prefix).** `Add` any sequence `xs` of 32-byte hashes (fewer than `2^63`: Go
+    `int64` lengths — the model's `powerOf16` loop has 16 nibbles of fuel like the `uint64` loop)
+    to the empty accumulator over a content-addressed bucket `db0`, then call `SetLen l` with
+    `0 < l < |xs|`. `Finalize` (the first thing `SetLen` does) succeeds with header
+    `⟨batch xs, |xs|⟩`, and if the finalised tree bucket holds no two different values with the
+    same hash (`NoCollVals`, as in `proof_accepted`), then `SetLen l` returns `.ok`, writes the
+    accumulator data, and the new accumulator is exactly the accumulator obtained by `Add`ing only
+    the first `l` hashes; in particular its header is `⟨batch (xs.take l), l⟩`. (The other
+    arguments of `SetLen` are `setLen_edge_cases`.) -/
+theorem setLen_eq_prefix (H : Bytes → Bytes) (hlen : ∀ x, (H x).length = 32)
+    (xs : List Bytes) (hx : All32 xs) (db0 : DB) (hdb0 : AllOk H db0)
+    (hbound : xs.length < 2 ^ 63) (l : Nat) (hl0 : 0 < l) (hl : l < xs.length) :
+    ∃ db', (addAll H ({}, db0) xs).1.finalize H (addAll H ({}, db0) xs).2
+        = some (⟨batch H xs, xs.length⟩, db') ∧
+      (NoCollVals H db' →
+        (addAll H ({}, db0) xs).1.setLen H (addAll H ({}, db0) xs).2 l
+          = ({ len := l, roots := rootsOf H (xs.take l) }, db', true, .ok) ∧
+        ({ len := l, roots := rootsOf H (xs.take l) } : Acc) = (addAll H ({}, db0) (xs.take l)).1 ∧
+        ({ len := l, roots := rootsOf H (xs.take l) } : Acc).header H
+          = some ⟨batch H (xs.take l), l⟩) := by
+  obtain ⟨hstate, hok1, hfw1⟩ := addAll_facts H hlen xs hx db0 hdb0
+  obtain ⟨db', hfin, hset⟩ := setLen_state H hlen xs hx _ hok1 hfw1 hbound l hl0 hl
+  refine ⟨db', by rw [hstate]; exact hfin, ?_⟩
+  intro hnc
+  have hlt : (xs.take l).length = l := by simp [Nat.min_eq_left (Nat.le_of_lt hl)]
+  have hxt : All32 (xs.take l) := hx.take l
+  have hpre : (addAll H ({}, db0) (xs.take l)).1 = { len := l, roots := rootsOf H (xs.take l) } := by
+    have := (addAll_facts H hlen (xs.take l) hxt db0 hdb0).1
+    rw [hlt] at this; exact this
+  refine ⟨by rw [hstate]; exact hset hnc, hpre.symm, ?_⟩
+  have := (header_is_function_of_sequence H hlen (xs.take l) hxt db0 db0).1
+  rw [hpre, hlt] at this
+  exact this
+
+/-- non-vacuity of `setLen_eq_prefix`, and a test of its conclusion: three 32-byte leaves, rewind
+    to 2; the hypotheses hold and `SetLen 2` gives the state of accumulating the first two -/
+example : ∃ (H : Bytes → Bytes) (xs : List Bytes) (l : Nat),
+    (∀ x, (H x).length = 32) ∧ All32 xs ∧ AllOk H ([] : DB) ∧ xs.length < 2 ^ 63 ∧ 0 < l ∧ l < xs.length ∧
+    ∃ hd db', (addAll H ({}, []) xs).1.finalize H (addAll H ({}, []) xs).2 = some (hd, db') ∧
+      NoCollVals H db' ∧
+      (addAll H ({}, []) xs).1.setLen H (addAll H ({}, []) xs).2 l
+        = ((addAll H ({}, []) (xs.take l)).1, db', true, .ok) :=
+  ⟨fun x => (x.reverse ++ List.replicate 32 0).take 32,
+   [List.replicate 32 1, List.replicate 32 2, List.replicate 32 3], 2,
+   by intro x; simp, by intro x hx; simp at hx; rcases hx with h | h | h <;> simp [h],
+   AllOk.nil _, by decide, by decide, by decide,
+   ⟨some (List.replicate 32 3), 3⟩,
+   [(List.replicate 32 3, List.replicate 32 1 ++ List.replicate 32 2 ++ List.replicate 32 3)],
+   by decide, by unfold NoCollVals; decide, by decide⟩
 
 /-- `GetMerkleHeader` and `Finalize` report the same header for any accumulator state, and it
     depends only on `(Len, Roots)` — not on the tree bucket or on earlier finalisations. -/
